@@ -305,6 +305,11 @@ func (e *fdEngine) Generate(seed uint64, tier string, run int) (json.RawMessage,
 			j = (j*4 + int(seed%4)) % len(files)
 		}
 		c.Font = files[j%len(files)]
+		// a third of the fault-free runs serve the font re-packaged as WOFF or as a collection:
+		// another container, the same font, hence the same answers (plain sfnt files only)
+		if k, _ := faultdisk.ParseDirectory(corpus.Bytes(c.Font)); k == faultdisk.KindSfnt {
+			c.Wrap = []string{"", "", "woff", "", "ttc", ""}[int(seed>>8)%6]
+		}
 		return json.Marshal(c)
 	}
 	if ticksAvailable && rk.Chance(0.012) {
@@ -487,7 +492,10 @@ func genGraft(rf *kernel.Rand, name string) (ByteFault, bool) {
 	if !ok {
 		return ByteFault{}, false
 	}
-	switch m := rf.Intn(3); {
+	switch m := rf.Intn(4); {
+	case m == 3:
+		// a table the font may not even have: kerx format 0 with tuples, pair values are offsets
+		return ByteFault{Kind: "graft", Tag: "kerx", Data: faultdisk.SynthKerx0Tuple(int(gid), int(gid), uint16(kernel.Pick(rf, []int{0x7FFE, 0x8000, 0x8004, 0xFFFE, 40})), kernel.Pick(rf, []int{64, 0x8100, 0x10010})), Aim: "kerx:format 0 with tuples"}, true
 	case m == 0 && has["GSUB"]:
 		k, n := rf.Range(5, 16), rf.Range(2, 8)
 		return ByteFault{Kind: "graft", Tag: "GSUB", Data: faultdisk.SynthGSUBExpansion(int(gid), k, n), Aim: fmt.Sprintf("GSUB:expansion %d^%d", n, k)}, true
@@ -561,6 +569,9 @@ func genByteFault(rf *kernel.Rand, kw []int, img []byte, tables []faultdisk.Tabl
 	}
 	vals32 := []uint32{0, 1, 2, 0xFFFFFFFF, 0x7FFFFFFF, 0x80000000, uint32(len(img)), uint32(len(img) - 1), uint32(len(img) + 1), 0xFFFF, 0x10000}
 	vals16 := []uint32{0, 1, 2, 0xFFFF, 0x7FFF, 0x8000, 0xFFFE, 0x100}
+	// small numbers: formats, lookup types, feature types and selectors are enumerations below 64
+	// (a field that selects how the following bytes are read, set to another legal value)
+	vals16 = append(vals16, uint32(rf.Intn(64)), uint32(rf.Intn(16)))
 	switch bf.Kind {
 	case "trunc":
 		if aimed {
@@ -751,6 +762,10 @@ func (w *fdWorld) guarded(what string, budget uint64, f func()) (v *kernel.Viola
 				v = &kernel.Violation{Oracle: "reader-fidelity", Site: "RawTable", Detail: string(fb)}
 				return
 			}
+			if eb, ok := r.(enumBreach); ok {
+				v = &kernel.Violation{Oracle: "bounded-enumeration", Site: "Cmap.Iter", Detail: string(eb)}
+				return
+			}
 			v = &kernel.Violation{Oracle: "no-panic", Site: site,
 				Detail: fmt.Sprintf("%s panicked: %s at %s", what, kernel.PanicKind(r), where)}
 			return
@@ -912,6 +927,13 @@ func (e *fdEngine) execute(raw json.RawMessage, profiled bool) (*kernel.Outcome,
 			for i, f := range rf {
 				want += fmt.Sprintf("face%d:%s\n", i, battery(f, c.QSeed, &kernel.Outcome{}, font.GID(c.Gid)))
 			}
+			if c.Wrap == "ttc" && len(rf) == 1 {
+				// both members of the collection are the same font
+				f2, err := font.ParseTTC(bytes.NewReader(pristine))
+				if err == nil && len(f2) == 1 {
+					want += fmt.Sprintf("face1:%s\n", battery(f2[0], c.QSeed, &kernel.Outcome{}, font.GID(c.Gid)))
+				}
+			}
 		})
 		if rv == nil && want != digest {
 			v = &kernel.Violation{Oracle: "pristine-equivalence", Site: "load:differs-from-bytes-reader",
@@ -993,6 +1015,8 @@ func (w *fdWorld) readerFidelity(img, stored []byte) (v *kernel.Violation) {
 
 type fidelityBreach string
 
+type enumBreach string
+
 // battery runs every kind of query and a few shapings on a face and returns a digest.
 func battery(f *font.Face, seed uint64, out *kernel.Outcome, extra ...font.GID) string {
 	return batteryPhased(f, seed, out, nil, extra...)
@@ -1013,9 +1037,17 @@ func batteryPhased(f *font.Face, seed uint64, out *kernel.Outcome, onShaping fun
 		}
 		var all []pair
 		it := f.Cmap.Iter()
-		for n := 0; it.Next() && n < 3000; n++ {
+		n := 0
+		for ; it.Next() && n <= 0x110000; n++ {
 			ru, g := it.Char()
-			all = append(all, pair{ru, g})
+			if n < 3000 {
+				all = append(all, pair{ru, g})
+			}
+		}
+		if n > 0x110000 {
+			// more mappings than there are code points: the enumeration of a character map is
+			// out of proportion whatever the caller does with it
+			panic(enumBreach(fmt.Sprintf("the cmap iterator yielded more than %d mappings", 0x110000)))
 		}
 		sort.Slice(all, func(i, j int) bool { return all[i].r < all[j].r })
 		for n, p := range all {
